@@ -100,8 +100,12 @@ func AppendDecimal(b []byte, f float64, dec int) []byte {
 
 	i, n := len(b), LenInt(num)
 	if 0 < dec {
-		if n < dec {
-			n = dec // number has zero after dot
+		neg := 0
+		if num < 0 {
+			neg = 1 // LenInt counts the minus sign
+		}
+		if n-neg < dec {
+			n = dec + neg // number has zero after dot
 		}
 		n++ // dot
 		if lim := int64pow10[dec]; 0 < num && num < lim || num < 0 && -lim < num {
